@@ -324,7 +324,7 @@ func scenarioList(s *Scen, steps []string) []any {
 // exchange is what the target remembers about the first step of one invocation.
 type exchange struct {
 	puu, rid string
-	uses     int
+	uses     map[string]int
 }
 
 type scenJudge struct {
@@ -427,7 +427,7 @@ func (j *scenJudge) common(step string, get func(string) (string, bool)) {
 func (j *scenJudge) auth(get func(string) (string, bool)) int {
 	s := j.s
 	j.common("auth", get)
-	e := &exchange{}
+	e := &exchange{uses: map[string]int{}}
 	if s.PreUUID {
 		e.puu, _ = get("puu")
 		if !looksLikeUUID(e.puu) {
@@ -548,9 +548,9 @@ func (j *scenJudge) follow(step string, links []link, get func(string) (string, 
 		}
 	}
 	if maxUses > 0 {
-		e.uses++
-		if e.uses > maxUses {
-			j.viol.add("target: token #%d was presented by %d %s steps, one invocation has only %d: a value issued to one invocation was presented by another", n, e.uses, step, maxUses)
+		e.uses[step]++
+		if e.uses[step] > maxUses {
+			j.viol.add("target: token #%d was presented by %d %s steps, one invocation has only %d: a value issued to one invocation was presented by another", n, e.uses[step], step, maxUses)
 		}
 	}
 	return n
